@@ -52,7 +52,11 @@ def ss_domains():
 
 SS_MUT = [('add', 0), ('add', 1), ('add', 2), ('remove', 0), ('remove', 1), ('remove', 2), ('pop', None), ('clear', None),
           ('ior', None), ('iand', None), ('isub', None), ('ixor', None), ('update', None),
-          ('b.add', 0), ('b.add', 1), ('b.add', 2), ('b.clear', None)]
+          ('b.add', 0), ('b.add', 1), ('b.add', 2), ('b.clear', None),
+          # other operand shapes of the in-place forms: a builtin set (hashable domains), the receiver itself, b / a list
+          ('ior-set', None), ('iand-set', None), ('isub-set', None), ('ixor-set', None),
+          ('ior-self', None), ('iand-self', None), ('isub-self', None), ('ixor-self', None),
+          ('update-b', None), ('update-list', None), ('update-self', None)]
 SS_QUERY = [('in', 0), ('in', 1), ('in', 2), ('len', None), ('iter', None), ('reversed', None), ('index', 0), ('index', 1),
             ('index', 2), ('index', 3), ('index', -1), ('union', None), ('intersection', None), ('difference', None),
             ('symmetric_difference', None), ('or', None), ('and', None), ('sub', None), ('xor', None),
@@ -62,7 +66,37 @@ SS_QUERY = [('in', 0), ('in', 1), ('in', 2), ('len', None), ('iter', None), ('re
             # the same against a builtin set operand (hashable domains only), and reflected
             ('set:or', None), ('set:and', None), ('set:sub', None), ('set:xor', None), ('set:le', None), ('set:lt', None),
             ('set:ge', None), ('set:gt', None), ('set:eq', None), ('set:ne', None),
-            ('rset:or', None), ('rset:and', None), ('rset:sub', None), ('rset:xor', None), ('rset:eq', None)]
+            ('rset:or', None), ('rset:and', None), ('rset:sub', None), ('rset:xor', None), ('rset:eq', None)] + \
+           [('self:' + n, None) for n in ('union', 'intersection', 'difference', 'symmetric_difference', 'or', 'and', 'sub', 'xor',
+                                          'le', 'lt', 'ge', 'gt', 'eq', 'ne', 'issubset', 'issuperset', 'isdisjoint')]
+
+NARY = ('union', 'intersection', 'difference')      # the methods that take *others
+MASKS = range(8)                                    # every subset of the 3-element domain, as a bit mask
+
+
+def ss_arg_ops(w, all_wrappers_at_3):
+    """The argument-tuple family: (ops that read only a, ops that also read b).
+    op = ('nary:<method>', (wrapper, args)); an arg is 'a', 'b' (the live objects) or a subset mask, built fresh as <wrapper>.
+    op = ('seq:<predicate>', (wrapper, mask)) for the one-operand predicates with a plain sequence."""
+    W = w.wrappers()
+    a_only, with_b = [], []
+    for m in NARY:
+        nm = 'nary:' + m
+        a_only += [(nm, ('list', ())), (nm, ('list', ('a',))), (nm, ('list', ('a', 'a')))]
+        with_b += [(nm, ('list', t)) for t in (('a', 'b'), ('b', 'a'), ('b', 'b'))]
+        for wr in W:
+            for x in MASKS:
+                a_only += [(nm, (wr, (x,))), (nm, (wr, (x, 'a'))), (nm, (wr, ('a', x)))]
+                with_b += [(nm, (wr, (x, 'b'))), (nm, (wr, ('b', x)))]
+                a_only += [(nm, (wr, (x, y))) for y in MASKS]
+        for wr in (W if all_wrappers_at_3 else ('list', 'sortedset')):
+            a_only += [(nm, (wr, (x, y, z))) for x in MASKS for y in MASKS for z in MASKS]
+        for x in MASKS:
+            for y in MASKS:
+                with_b += [(nm, ('list', t)) for t in (('b', x, y), (x, 'b', y), (x, y, 'b'))]
+    for pred in ('issubset', 'issuperset', 'isdisjoint'):
+        a_only += [('seq:' + pred, (wr, x)) for wr in ('list', 'tuple') for x in MASKS]
+    return a_only, with_b
 
 
 class SSWorld(object):
@@ -77,6 +111,22 @@ class SSWorld(object):
 
     def mk(self, i):
         return copy.deepcopy(self.dom[i])
+
+    def wrappers(self):
+        return ('sortedset', 'list', 'tuple') + (('set', 'frozenset') if self.hashable else ())
+
+    def operand(self, wr, t):
+        """-> (object handed to the driver, model set)"""
+        if t == 'a':
+            return self.a, set(self.A)
+        if t == 'b':
+            return self.b, set(self.B)
+        idxs = [i for i in (2, 1, 0) if t >> i & 1]             # descending: a sequence need not come sorted
+        mkr = {'list': list, 'tuple': tuple, 'set': set, 'frozenset': frozenset, 'sortedset': self.cls}[wr]
+        return mkr([self.mk(i) for i in idxs]), set(idxs)
+
+    def akey(self):
+        return (frozenset(self.A), self.key()[2])
 
     def idx(self, x):
         for i, e in enumerate(self.dom):
@@ -172,24 +222,41 @@ def ss_apply(w, op):
         got = guard(lambda: ('none',) if b.clear() is None else ('val', 'not None'))
         B.clear()
         return got, ('none',)
-    if name in ('ior', 'iand', 'isub', 'ixor', 'update'):
+    base, _, shape = name.partition('-')
+    if (base in ('ior', 'iand', 'isub', 'ixor') and shape in ('', 'set', 'self')) or (base == 'update' and shape in ('', 'b', 'list', 'self')):
+        if shape == 'set' and not w.hashable:
+            return ('skip',), ('skip',)
+        if name == 'update-self' and w.order == 'partial-order':
+            return ('skip',), ('skip',)    # known-broken domain (add of a present element may insert): would not terminate
+        O = set(A) if shape == 'self' else set(B)
+
         def f():
             nonlocal a
             before = a
-            if name == 'ior':
-                a |= b
-            elif name == 'iand':
-                a &= b
-            elif name == 'isub':
-                a -= b
-            elif name == 'ixor':
-                a ^= b
+            if shape == 'set':
+                o = set(w.mk(i) for i in B)
+            elif shape == 'self':
+                o = a
+            elif shape == 'list':
+                o = [w.mk(i) for i in sorted(B, reverse=True)]
+            elif base == 'update' and shape == '':
+                o = iter([w.mk(i) for i in sorted(B, reverse=True)])
             else:
-                a.update(iter([w.mk(i) for i in sorted(B, reverse=True)]))
+                o = b
+            if base == 'ior':
+                a |= o
+            elif base == 'iand':
+                a &= o
+            elif base == 'isub':
+                a -= o
+            elif base == 'ixor':
+                a ^= o
+            else:
+                a.update(o)
             w.a = a
             return ('val', 'same object' if a is before else 'another object')
         got = guard(f)
-        newA = {'ior': A | B, 'iand': A & B, 'isub': A - B, 'ixor': A ^ B, 'update': A | B}[name]
+        newA = {'ior': A | O, 'iand': A & O, 'isub': A - O, 'ixor': A ^ O, 'update': A | O}[base]
         A.clear()
         A.update(newA)
         return got, ('val', 'same object')
@@ -223,6 +290,31 @@ def ss_apply(w, op):
         'eq': (lambda o: a == o, A == B), 'ne': (lambda o: a != o, A != B), 'issubset': (lambda o: a.issubset(o), A <= B),
         'issuperset': (lambda o: a.issuperset(o), A >= B), 'isdisjoint': (lambda o: a.isdisjoint(o), not (A & B)),
     }
+    if name.startswith('nary:'):
+        wr, args = arg
+        if wr in ('set', 'frozenset') and not w.hashable:
+            return ('skip',), ('skip',)
+        ops_ = [w.operand(wr, t) for t in args]
+        m = set(A)
+        for _, O in ops_:
+            m = {'union': m | O, 'intersection': m & O, 'difference': m - O}[name[5:]]
+        return setres(lambda: getattr(a, name[5:])(*[o for o, _ in ops_])), srt(m)
+    if name.startswith('seq:'):
+        wr, t = arg
+        o, O = w.operand(wr, t)
+        want = {'issubset': A <= O, 'issuperset': A >= O, 'isdisjoint': not (A & O)}[name[4:]]
+        return guard(lambda: ('val', getattr(a, name[4:])(o))), ('val', want)
+    if name.startswith('self:'):
+        base = name[5:]
+        if base in binops:
+            m = {'union': A, 'intersection': A, 'difference': set(), 'symmetric_difference': set(),
+                 'or': A, 'and': A, 'sub': set(), 'xor': set()}[base]
+            return setres(lambda: binops[base][0](a)), srt(m)
+        if w.order == 'eq-only' and base in ('eq', 'ne'):
+            return ('skip',), ('skip',)
+        m = {'le': True, 'lt': False, 'ge': True, 'gt': False, 'eq': True, 'ne': False, 'issubset': True, 'issuperset': True,
+             'isdisjoint': not A}[base]
+        return guard(lambda: ('val', cmps[base][0](a))), ('val', m)
     if name in binops:
         f, m = binops[name]
         return setres(lambda: f(b)), srt(m)
@@ -524,33 +616,60 @@ def fingerprint(spec, op, clause):
             return 'C33/sortedset/partially-ordered-elements/%s' % clause.split('/')[0]
         if order == 'eq-only':
             return 'C33/sortedset/unorderable-elements/%s' % clause.split('/')[0]
-        return 'C33/sortedset/%s/%s' % (op[0], clause)
+        return 'C33/sortedset/%s/%s' % (op_label(op), clause)
     return 'C33/%s/%s/%s' % (spec[1].lower(), op[0], clause)
 
 
-def step(part, spec, path, op):
-    """rebuild the state of `path`, apply op, compare.  Returns the world (or None when the op does not apply)."""
-    w, ap = build(spec, path)
+def op_label(op):
+    if op[0].startswith('nary:'):
+        n = len(op[1][1])
+        return '%s/args=%s' % (op[0][5:], n if n < 2 else '2+')
+    return op[0]
+
+
+def judge(part, spec, path, op, w, ap):
+    """apply op to the world w (which is in the state of `path`), compare.  -> (world or None when the op does not apply, clean)"""
     try:
         got, want = ap(w, op)
     except Unknown as e:
         part.violation(fingerprint(spec, op, 'result/foreign-element'),
                        '%s after %r: %r produced an element/key that was never inserted: %s' % (spec_name(spec), list(path), op, e),
                        {'spec': list(spec), 'path': [list(p) for p in path], 'op': list(op)})
-        return None
+        return None, False
     if got == ('skip',):
-        return None
+        return None, True
+    clean = True
     part.count('transitions')
     part.count('executions')
     case = {'spec': list(spec), 'path': [list(p) for p in path], 'op': list(op)}
     if got != want:
+        clean = False
         clause = 'exception' if 'exc' in (got[0], want[0]) else 'result'
         part.violation(fingerprint(spec, op, clause), '%s after %r: %r gave %r, model %r' % (spec_name(spec), list(path), op, got, want), case)
     obs = w.observe()
     if obs:
+        clean = False
         part.violation(fingerprint(spec, op, obs[0]), '%s after %r then %r: %s' % (spec_name(spec), list(path), op, obs[1]), case)
     part.outcome((spec[0], op[0], got[0]))
-    return w
+    return w, clean
+
+
+def step(part, spec, path, op):
+    """rebuild the state of `path`, apply op, compare.  Returns the world (or None when the op does not apply)."""
+    w, ap = build(spec, path)
+    return judge(part, spec, path, op, w, ap)[0]
+
+
+def step_queries(part, spec, path, ops, counter):
+    """the same for a list of queries, on one world: it is rebuilt only after a query that did not come out clean (a clean query
+    leaves model and object as they were: the whole observable state has just been compared)"""
+    w = None
+    for op in ops:
+        if w is None:
+            w, ap = build(spec, path)
+        part.count(counter)
+        if not judge(part, spec, path, op, w, ap)[1]:
+            w = None
 
 
 def spec_name(spec):
@@ -561,10 +680,22 @@ def explore(spec):
     part = Part()
     depth = spec[-1]
     w0, _ = build(spec, ())
+    a_only, with_b, seen_a = [], [], set()
     if spec[0] == 'sortedset':
         mut, qry = SS_MUT, SS_QUERY
+        a_only, with_b = ss_arg_ops(w0, depth > 4)
     else:
         mut, qry = om_ops(w0)
+
+    def arg_family(path):
+        if not with_b:
+            return
+        step_queries(part, spec, path, with_b, 'argument_tuples_with_b')
+        ak = build(spec, path)[0].akey()
+        if ak not in seen_a:            # these read a (and fresh operands) only: once per distinct state of a
+            seen_a.add(ak)
+            part.count('states_of_a')
+            step_queries(part, spec, path, a_only, 'argument_tuples_a_only')
     obs = w0.observe()
     if obs:
         part.violation(fingerprint(spec, ('init',), obs[0]), 'fresh object: %s' % obs[1], {'spec': list(spec), 'path': [], 'op': ['len', None]})
@@ -577,6 +708,7 @@ def explore(spec):
         for path in frontier:
             for op in qry:
                 step(part, spec, path, op)
+            arg_family(path)
             for op in mut:
                 w = step(part, spec, path, op)
                 if w is None:
@@ -597,6 +729,7 @@ def explore(spec):
     for path in frontier:
         for op in qry:
             step(part, spec, path, op)
+        arg_family(path)
     part.counters['fixpoint_reached:%s' % spec_name(spec)] = 0 if frontier else 1
     part.sample({'spec': list(spec), 'states': part.counters.get('states'), 'transitions': part.counters.get('transitions'),
                  'frontier_left_at_depth_bound': len(frontier)}, limit=1)
@@ -653,8 +786,9 @@ def run(ctx):
 def replay(ctx, d):
     part = Part()
     spec = tuple(d['spec'])
-    path = tuple((p[0], tuple(p[1]) if isinstance(p[1], list) else p[1]) for p in d['path'])
-    op = (d['op'][0], tuple(d['op'][1]) if isinstance(d['op'][1], list) else d['op'][1])
+    tup = lambda x: tuple(tup(y) for y in x) if isinstance(x, (list, tuple)) else x
+    path = tup(d['path'])
+    op = tup(d['op'])
     step(part, spec, path, op)
     for fp, what, _ in part.violations:
         print(fp, '::', what)
